@@ -65,7 +65,8 @@ var v6pool = func() [][]byte {
 var alpnPool = []string{"h2", "h3", "http/1.1", "h2c", "spdy/3", "foo"}
 
 // names that may be keys of Additional; "absent.example" never is.
-var namePool = []string{"a.example", "b.example.", "c.example.net", "absent.example"}
+// Additional is keyed by the exact spelling of the target in its record: two spellings that differ in case are two keys.
+var namePool = []string{"a.example", "b.example.", "c.example.net", "MiXed.Example", "mixed.example", "absent.example"}
 
 func pickIP(rng *mrand.Rand) []byte {
 	if rng.IntN(5) < 3 {
@@ -106,7 +107,7 @@ func gen(rng *mrand.Rand, i int) *mRes {
 	}
 	if rng.IntN(4) > 0 {
 		m.Add = map[string][][]byte{}
-		for _, n := range namePool[:3] {
+		for _, n := range namePool[:len(namePool)-1] {
 			switch rng.IntN(4) {
 			case 0: // absent
 			case 1:
